@@ -131,6 +131,10 @@ fn worker(src: &str, base: u64, first: u64, count: u64, known: &[String]) -> Wor
                     What::Qty { ty, unit, .. } | What::Unit { ty, unit } => {
                         units.insert((ty, unit));
                     }
+                    What::Pair { a_ty, a_unit, b_ty, b_unit, .. } => {
+                        units.insert((a_ty, a_unit));
+                        units.insert((b_ty, b_unit));
+                    }
                     _ => {}
                 }
                 if subj.len() < 400_000 {
@@ -254,7 +258,7 @@ fn minimise(mut plans: Vec<Plan>, kind: &str, known: &[String]) -> (Vec<Plan>, u
     }
     // 2. shrink every remaining plan
     let mut changed = true;
-    while changed && tried < 1500 {
+    while changed && tried < 3000 {
         changed = false;
         for pi in 0..plans.len() {
             // drop threads
@@ -269,7 +273,24 @@ fn minimise(mut plans: Vec<Plan>, kind: &str, known: &[String]) -> (Vec<Plan>, u
                     t += 1;
                 }
             }
-            // drop ops
+            // drop ops: first in halving chunks (long histories), then one by one
+            for t in 0..plans[pi].threads.len() {
+                let mut size = plans[pi].threads[t].len() / 2;
+                while size >= 2 {
+                    let mut start = 0;
+                    while start + size <= plans[pi].threads[t].len() {
+                        let mut c = plans.clone();
+                        c[pi].threads[t].drain(start..start + size);
+                        if !c[pi].threads.iter().all(|x| x.is_empty()) && check(&c, &mut tried) {
+                            plans = c;
+                            changed = true;
+                        } else {
+                            start += size;
+                        }
+                    }
+                    size /= 2;
+                }
+            }
             for t in 0..plans[pi].threads.len() {
                 let mut o = 0;
                 while o < plans[pi].threads[t].len() {
